@@ -116,6 +116,18 @@ def gen_cases(tier, seed):
                 if faults:
                     spec['plan']['faults'] = faults
                 cases.append(spec)
+    # one legacy S3Transfer object used from several threads: 2-3 download_file calls overlapping in time (requests held at a gate
+    # until every call is in flight)
+    for i in range(30 if quick else 300):
+        T, C = rng.choice([(8, 8), (16, 8), (8, 4)])
+        n = rng.choice([2, 2, 3])
+        spec = {'front_end': 'legacy', 'concurrent': True, 'seed': rng.randrange(1 << 30),
+                'config': dict(multipart_threshold=T, multipart_chunksize=C, max_concurrency=rng.choice([1, 2, 3]), num_download_attempts=2,
+                               max_io_queue=rng.choice([1, 2, 100])),
+                'transfers': [{'kind': 'download', 'dst': 'path', 'size': rng.choice([T - 1, T, 2 * C + 1, 4 * C, 5 * C + 3])} for _ in range(n)],
+                'get_read_caps': rng.choice(caps_menu),
+                'plan': {'gate': {'match': 's3:GetObject', 'phase': rng.choice(['before', 'after']), 'policy': rng.choice(['seeded', 'reverse'])}}}
+        cases.append(spec)
     # process-pool worker loop replayed in-process (5 attempts fixed)
     for (T, C, io) in combos:
         for size in sizes_for(T, C):
